@@ -22,7 +22,7 @@ ASSUMPTIONS = [
 ]
 MANIFEST = {'text': 'proof (over-approximating backward data provenance) that no path component of an extracted file comes from an unsanitised member name: sinks are fed by enclosed_name()/file_stem()-derived '
                     'rename values joined onto a TempDir path; the set of fs-mutating call sites in the archive module equals the reviewed set.'
-                    ' Added: the volume chain never signals end-of-data with volumes remaining, and repositions a volume reader relatively only when its position is known (rel_pos != 0). Added: a binary search in the archive module compares by the key type the sequence was sorted by (String order is not Path order).'}
+                    ' Added: the volume chain never signals end-of-data with volumes remaining, and repositions a volume reader relatively only when its position is known (rel_pos != 0). Added: a binary search in the archive module compares by the key type the sequence was sorted by (String order is not Path order). Added: extract_to_dir writes a member only after the membership test matched it, or when no filter was requested (an emptied name list is not \'no filter\').'}
 
 SINK = re.compile(r'^std::fs::(create_dir_all|create_dir|File::create|File::create_new|write|rename|copy|remove_file|remove_dir_all|remove_dir|hard_link|OpenOptions::open|set_permissions)$|^std::os::unix::fs::symlink$')
 FORBIDDEN = re.compile(r'ZipFile(::<[^>]*>|<[^>]*>)?::(name|mangled_name|name_raw)$')
@@ -154,6 +154,8 @@ def run(F, chk):
     check_member_selection(F, X7)
     X8 = chk.rule('X8', 'archive module: a binary search over a sequence compares by the order the sequence was sorted by (same key type: String order is not Path order)')
     check_lookup_order(F, X8)
+    X9 = chk.rule('X9', 'extract_to_dir writes a member only on a path that matched it against the requested names, or where the caller requested no filter at all (None) - an emptied list is not "no filter"')
+    check_member_written_only_if_selected(F, X9)
 
 
 # ---------------------------------------------------------------------------------------------
@@ -537,3 +539,133 @@ def check_lookup_order(F, X8):
                              'an order that differs from the sort order (String is byte-wise, Path is component-wise) makes the binary search miss members that are present - they are silently not extracted' %
                              (f.path, el, b.loc(blk.term.sp), sorted(keys or ['?']), sorted(sk) or 'nothing'), where=b.loc(blk.term.sp))
     X8.ok(sample={'sorted_lookups_in_the_archive_module': n, 'note': 'membership tests are linear scans today; the rule arms itself with the first binary search'}) if n == 0 else None
+
+
+# ---------------------------------------------------------------------------------------------
+# X9: a member is written only if selected
+
+def check_member_written_only_if_selected(F, X9):
+    """"selects exactly the members whose name matches": when names are requested, the already extracted ones are taken off the list
+    first - the list can become empty, which must mean "nothing left to extract", never "no filter".  For every fs-writing call
+    inside the member loops of extract_to_dir, every path that reaches it has (a) crossed the true edge of the membership test
+    (`names.iter().any(..)` - or a private predicate that is true only for a match or for filter == None) in this iteration, or
+    (b) started with the None edge of the `files_filter` parameter itself."""
+    from paths import Explorer, place_key
+    from facts import Place as Pl, Operand as Op
+    b = F.get('adlt::utils::unzip::extract_to_dir')
+    if b is None:
+        X9.violation(('anchor-lost', 'extract_to_dir'), 'extract_to_dir not found')
+        return
+    X9.fn(b.path)
+    cfg = CFG(b)
+    E = ExprBuilder(cfg)
+    EF = ExprBuilder(cfg, fold_named=True)
+    param = None
+    for i, t in enumerate(b.arg_types(), start=1):
+        if t.startswith('std::option::Option<') and 'String' in t:
+            param = i
+    if param is None:
+        X9.violation(('anchor-lost', 'files_filter parameter'), 'extract_to_dir has no Option<..String..> parameter')
+        return
+    pname = b.name_of(param) or 'arg%d' % param
+    loops = cfg.loops()
+    # membership tests: Iterator::any over String items, or a crate predicate fn(Option<&[String]>, ..) -> bool that is selective
+    any_blocks = {}
+    for blk in b.calls():
+        t = blk.term
+        if t.callee.path.endswith('Iterator::any') and t.args and 'String' in (t.args[0].ty or ''):
+            any_blocks[blk.i] = 'any'
+        else:
+            H = F.get(t.callee.resolved) if t.callee.resolved else F.get(t.callee.path)
+            if H is not None and H.kind != 'closure' and H.crate == 'lib' and H.ret_type() == 'bool' and any('Option<&[std::string::String]>' in (a.ty or '') or ('Option<' in (a.ty or '') and 'String' in (a.ty or '')) for a in t.args):
+                if selective_predicate(F, H):
+                    any_blocks[blk.i] = H.path
+                    X9.fn(H.path)
+    sinks = [blk.i for blk in b.calls() if re.search(r'^std::fs::(File::create|create_dir_all|create_dir|write)$', blk.term.callee.path) and any(blk.i in lb for lb in loops.values())]
+    X9.floor('fs-writing calls inside the member loops of extract_to_dir', len(sinks), 2)
+    X9.floor('membership tests in extract_to_dir', len(any_blocks), 1)
+    heads = set(h for h, lb in loops.items() if any(a in lb for a in any_blocks))
+
+    def block_effect(blk, facts):
+        if blk.i in heads:
+            facts = frozenset(f for f in facts if f != ('matched',))
+        for s in blk.stmts:
+            if s.k == 'assign' and s.place.is_local and not s.place.p and s.rv['k'] == 'agg' and (s.rv.get('adt') or '').endswith('option::Option') and s.rv.get('variant') in ('Some', 'None'):
+                k = place_key(s.place)
+                facts = frozenset([f for f in facts if not (f[0] == 'var' and f[1] == k)] + [('var', k, 1 if s.rv['variant'] == 'Some' else 0)])
+        return facts
+
+    def edge_effect(blk, tgt, facts):
+        if blk.term.k != 'switch':
+            return facts
+        c = E.switch_cond(blk)
+        # the request: discriminant of the parameter itself
+        if isinstance(c, tuple) and c[0] == 'discr' and c[1] == ('place', pname):
+            for v, t_ in blk.term.d['vals']:
+                if t_ == tgt and v == 0:
+                    return frozenset(facts | {('req_none',)})
+            if blk.term.d['otherwise'] == tgt and [v for v, _ in blk.term.d['vals']] == [1]:
+                return frozenset(facts | {('req_none',)})
+            return facts
+        # the membership test
+        d = Op(blk.term.d['d'])
+        if d.place is not None and d.place.is_local:
+            sd = cfg.single_def(d.place.l)
+            neg = False
+            for _ in range(3):
+                if sd is not None and sd[1] != 'call' and sd[2].rv['k'] == 'un' and sd[2].rv['op'] == 'Not' and Op(sd[2].rv['a']).place is not None:
+                    neg = not neg
+                    sd = cfg.single_def(Op(sd[2].rv['a']).place.l)
+                elif sd is not None and sd[1] != 'call' and sd[2].rv['k'] == 'use' and Op(sd[2].rv['o']).place is not None and Op(sd[2].rv['o']).place.is_local:
+                    sd = cfg.single_def(Op(sd[2].rv['o']).place.l)
+            if sd is not None and sd[1] == 'call' and sd[0] in any_blocks:
+                for v, t_ in blk.term.d['vals']:
+                    if t_ == tgt and bool(v) != neg:
+                        return frozenset(facts | {('matched',)})
+                if blk.term.d['otherwise'] == tgt and [v for v, _ in blk.term.d['vals']] == [0] and not neg:
+                    return frozenset(facts | {('matched',)})
+        return facts
+    ex = Explorer(cfg, block_effect=block_effect, edge_effect=edge_effect, var_roots=None)
+    ex.run()
+    X9.paths += ex.n_states
+    for sk in sinks:
+        X9.sites += 1
+        bad = [st for st in ex.states.get(sk, ()) if ('matched',) not in st[1] and ('req_none',) not in st[1]]
+        if bad:
+            X9.violation(('member-written-unselected', b.path), 'extract_to_dir can reach the file-system write at %s for a member that was not matched against the requested names although names were requested '
+                         '(e.g. the list of names still to extract became empty and is then taken for "no filter"): members that were not asked for are extracted and reported' % b.loc(b.blocks[sk].term.sp),
+                         where=b.loc(b.blocks[sk].term.sp), witness={'block_path': ex.witness(sk, bad[0])[-40:]})
+        else:
+            X9.ok(sample={'write_at': b.loc(b.blocks[sk].term.sp), 'only_after': 'membership test true, or request without filter'})
+
+
+def selective_predicate(F, H):
+    """fn(filter: Option<..>, name) -> bool: every definition of the result is the value of `any(..)` over the names, or `true` behind
+    the None edge of the filter parameter, or `false`"""
+    cfg = CFG(H)
+    E = ExprBuilder(cfg, fold_named=True)
+    E0 = ExprBuilder(cfg)
+    pn = [H.name_of(i) or 'arg%d' % i for i, t in enumerate(H.arg_types(), start=1) if 'Option<' in t]
+    ok = False
+    for (bi, si, d) in cfg.defs.get(0, []):
+        if si == 'call':
+            if not d.callee.path.endswith('Iterator::any'):
+                return False
+            ok = True
+            continue
+        v = E.rvalue(d.rv)
+        if v == ('const', 0):
+            continue
+        if v == ('const', 1):
+            under_none = False
+            for (c, truth, D) in guards.known(cfg, E0, bi):
+                if isinstance(c, tuple) and c[0] == 'discr' and isinstance(c[1], tuple) and c[1][0] == 'place' and c[1][1] in pn and (truth in (False, ('eq', 0)) or (isinstance(truth, tuple) and truth[0] == 'ne' and 1 in truth[1])):
+                    under_none = True
+            if not under_none:
+                return False
+            continue
+        if isinstance(v, tuple) and v[0] == 'call' and v[1].endswith('Iterator::any'):
+            ok = True
+            continue
+        return False
+    return ok
